@@ -353,6 +353,46 @@ def run(p, report, tier):
                 "fit: the try around it has a handler for Exception (or a bare one)", floor=1)
     report.rule("R15.10", "a public method of a regressor that accepts **kwargs forwards them (sample / sample_y hand "
                 "the caller's random_state to the sampling function)", floor=2)
+    report.rule("R15.11", "the regressors partition labels with their own sentinel (shared with C09 R9.1); predict "
+                "appends the optional outputs in the documented order (std before entropy); the cold-start branch of "
+                "the kernel regressors is taken exactly when there is NO labeled sample (an emptiness test, no larger "
+                "threshold)", floor=4)
+    from ..common import Report as _Report
+    from . import c09 as _c09
+    sub9 = _Report("C09")
+    _c09.run(p, sub9, "quick")
+    for o in sub9.obligations:
+        if o.rule == "R9.1" and any(t in o.entity for t in ("SklearnRegressor", "SklearnNormalRegressor", "NICKernelRegressor",
+                                                             "NadarayaWatsonRegressor", "SkactivemlRegressor", "ProbabilisticRegressor")):
+            report.add("R15.11", o.entity, o.construct, o.loc, o.ok, detail=o.detail)
+    pr = p.get_method("ProbabilisticRegressor", "predict")
+    if pr is None:
+        raise AnalysisError("ProbabilisticRegressor.predict vanished")
+    order = []
+    for n in pr.node.body if False else ast.walk(pr.node):
+        if isinstance(n, ast.If) and isinstance(n.test, ast.Name) and n.test.id in ("return_std", "return_entropy"):
+            order.append((n.lineno, n.test.id))
+    order.sort()
+    oko = [nm for _, nm in order] == ["return_std", "return_entropy"]
+    report.add("R15.11", pr.qual, "optional outputs appended in the order (std, entropy)", f"{pr.file}:{pr.node.lineno}", oko,
+               detail="std before entropy" if oko else f"blocks found in the order {[nm for _, nm in order]}: with both flags set the "
+               "tuple is (mean, entropy, std)")
+    for cname in ("NICKernelRegressor",):
+        ci_ = p.get_class(cname)
+        for f_ in (ci_.methods.values() if ci_ else []):
+            for n in ast.walk(f_.node):
+                if isinstance(n, ast.If) and "len(self.X_)" in ast.unparse(n.test).replace(" ", ""):
+                    t = n.test
+                    okt = False
+                    if isinstance(t, ast.Compare) and len(t.ops) == 1 and isinstance(t.comparators[0], ast.Constant):
+                        c_, op = t.comparators[0].value, t.ops[0]
+                        okt = (c_ == 0 and isinstance(op, (ast.NotEq, ast.Gt, ast.Eq))) or (c_ == 1 and isinstance(op, (ast.GtE, ast.Lt)))
+                    elif isinstance(t, ast.Call) or (isinstance(t, ast.UnaryOp) and isinstance(t.op, ast.Not)):
+                        okt = True
+                    report.add("R15.11", f_.qual, f"cold-start test `{norm_stmt(t, 40)}` is an emptiness test", f"{f_.file}:{n.lineno}", okt,
+                               detail="no labeled sample <=> prior only" if okt else
+                               "the labeled-sample branch needs more than one sample: a single label is ignored (NaN mean / std for a "
+                               "zero-weight prior)")
     check_empty_safe(p, report)
     report.assumptions += ["finiteness and sign of standard deviations and agreement as numbers are not decided",
                            "scipy.stats frozen distributions implement mean/std/entropy/rvs coherently"]
